@@ -4,9 +4,16 @@
 (* pen oracle of specs/term/SGR.tla, written from ECMA-48 / T.416 / xterm / *)
 (* kitty): every grapheme is a cell carrying the pen in force when it is    *)
 (* reached.  No implementation identifiers.                                 *)
+(* Hyperlinks (the OSC 8 convention, "Hyperlinks in terminal emulators"):   *)
+(* the control string OSC 8 ; params ; URI ST makes the following text a    *)
+(* link to URI until the next such string; an empty URI ends the link;      *)
+(* SGR does not touch it.  The stream carries them as `osc8 ln` (ln = 0:    *)
+(* empty URI, otherwise an id of params and URI).                           *)
 (*                                                                          *)
 (* A cell is the tuple <<g, fg, bg, ul, us, at>> (grapheme id, colours in   *)
-(* SGR's integer encoding, underline style, attribute mask).                *)
+(* SGR's integer encoding, underline style, attribute mask).  The link a    *)
+(* cell is under is not part of the cell: the property names graphemes,     *)
+(* colours, attributes and underline, so a codec may keep or drop links.    *)
 EXTENDS SGR
 
 CellOf(g, pen) == <<g, pen.fg, pen.bg, pen.ul, pen.us, pen.at>>
@@ -14,7 +21,10 @@ FieldName == <<"g", "fg", "bg", "ul", "us", "at">>
 
 (* Interpretation state: the pen, the cells seen so far, and whether every  *)
 (* SGR sequence so far had a meaning fixed by the standard.                 *)
-InitI == [pen |-> DefaultPen, cells |-> <<>>, wf |-> TRUE]
+(* link: the hyperlink in force (0 none); linked: a hyperlink control       *)
+(* string occurred.                                                         *)
+InitI == [pen |-> DefaultPen, cells |-> <<>>, wf |-> TRUE, link |-> 0, linked |-> FALSE]
+StepLink(s, ln) == [s EXCEPT !.link = ln, !.linked = TRUE]
 StepSGR(s, ps) == [s EXCEPT !.pen = Apply(s.pen, ps), !.wf = s.wf /\ WellFormed(ps)]
 RECURSIVE StepSGRs(_, _, _)         \* several control sequences written back to back
 StepSGRs(s, seqs, i) == IF i > Len(seqs) THEN s ELSE StepSGRs(StepSGR(s, seqs[i]), seqs, i + 1)
@@ -43,10 +53,19 @@ DiffFields(a, b) ==
 (*   rt   TRUE when the producer is lossless for these cells (round trip    *)
 (*        demanded); FALSE for the renderer under a capability fallback     *)
 Understood(s) == s.wf                    \* only forms whose meaning is fixed
-EndsReset(s)  == s.pen = DefaultPen
+(* Styles reset at the end: text written after the string is plain text --  *)
+(* default pen and not part of a hyperlink.                                 *)
+PenReset(s)   == s.pen = DefaultPen
+LinkClosed(s) == s.link = 0
+EndsReset(s)  == PenReset(s) /\ LinkClosed(s)
 RoundTrip(s, in) == s.cells = in
 (* A consumer's reading `got` of the same string agrees with the oracle.    *)
 Agrees(s, got) == got = s.cells
+(* Whose reading is demanded.  Strings of SGR sequences and graphemes: every *)
+(* consumer's.  Strings that also contain hyperlink control strings (not SGR *)
+(* sequences): the round trip of the producer's own parser only.             *)
+Paired(prod) == CASE prod = "cells" -> {"parse"} [] prod = "ss" -> {"nss"} [] OTHER -> {}
+Judged(s, prod, who) == ~s.linked \/ who \in Paired(prod)
 
 PenOK(p) == /\ p.at \in 0..127 /\ p.us \in 0..5
             /\ \A c \in {p.fg, p.bg, p.ul} : c = 0 \/ c \in 1..256 \/ c \in RGBBase..(RGBBase + 16777215)
